@@ -269,6 +269,7 @@ class H2Reactor:
         self.uploads = {int(k): list(v) for k, v in (spec.get("uploads") or {}).items()}
         self.upload_started = not spec.get("uploads_wait", False)
         self.upload_blocked = 0
+        self.drips = 0
 
     def sv(self, sid):
         s = self.streams.get(sid)
@@ -327,7 +328,7 @@ class H2Reactor:
     # ---------------------------------------------------------------------------------------------
     def react(self, data, now):
         if not data:
-            return self.pump()
+            return self._drip() + self.pump()
         reply = bytearray()
         for ev in self.rd.feed(data):
             self.frames.append((now, ev["t"], ev.get("sid")))
@@ -355,7 +356,7 @@ class H2Reactor:
                     s.ended += 1
                     s.end_t = now
                 credit = self.spec.get("credit", "auto")
-                if flow and credit != "none":
+                if flow and isinstance(credit, str) and credit != "none":
                     if credit in ("auto", "conn_only"):
                         reply += self.fb.window_update(0, flow)
                         self.sent_window_update(0, flow)
@@ -406,8 +407,34 @@ class H2Reactor:
         steps = []
         if reply:
             steps.append(["feed_nosettle", bytes(reply)])
+        steps.extend(self._drip())
         steps.extend(self.pump())
         return steps
+
+    def _drip(self):
+        """credit == {"drip": n}: grant n bytes wherever a window is exhausted (called at quiescence)."""
+        credit = self.spec.get("credit")
+        if not isinstance(credit, dict) or "drip" not in credit or self.goaway_seen_fatal():
+            return []
+        n = credit["drip"]
+        if self.drips >= credit.get("max", 100000):
+            return []
+        out = bytearray()
+        order = credit.get("order", "stream_first")
+        todo = []
+        for sid, s in sorted(self.streams.items()):
+            if not s.ended and s.rst is None and s.heads and self.win.get(sid, self.init_win) <= 0:
+                todo.append(sid)
+        if self.conn_win <= 0:
+            todo = (todo + [0]) if order == "stream_first" else ([0] + todo)
+        for sid in todo:
+            out += self.fb.window_update(sid, n)
+            self.sent_window_update(sid, n)
+            self.drips += 1
+        return [["feed_nosettle", bytes(out)]] if out else []
+
+    def goaway_seen_fatal(self):
+        return self.goaway is not None and self.goaway.get("code", 0) != 0
 
     def pump(self):
         """Send queued upload frames, round-robin, one feed per frame, while windows permit."""
